@@ -120,7 +120,7 @@ def check_solve(case, ev):
 @st.composite
 def select_case(draw, tier):
     spec = draw(S.configurator_spec(max_items=6))
-    ids = ["a", "b", "c", "d", "e", "f", "R1", "R2", "zz"]
+    ids = ["a", "b", "c", "d", "e", "f", "R1", "R2", "zz", "a ", "A"]
     prios = []
     if draw(st.integers(0, 14)) == 0:
         # MANY requests in one call (a batch of customer sessions): 64-130 pairwise different dictionaries in a drawn order
